@@ -10,21 +10,23 @@ RULE = ("Engine F: generated factories (1-3 sources, 0-2 machine layers with fan
         "after every kernel event, from an outside ledger of every store put/get: every item is in exactly one place "
         "(an item found in an edge is where the ledger says, no edge holds an item twice or an item located elsewhere, "
         "every put comes from the node that holds the item, every get takes an item the edge holds); per source "
-        "generated - pushed - discarded in {0,1}; per node pulled - pushed - discarded >= 0; an item is in at most one "
+        "generated - pushed - discarded in {0,1}; per node 0 <= pulled - pushed - discarded (<= work_capacity for a machine); an item is in at most one "
         "pallet. Finite inputs without combiner and with FIRST_AVAILABLE fan-in are run on to quiescence: everything "
         "generated is received or discarded. Non-trivial: fan-in, fan-out or a pack line, and some edge was full at least once.")
+RULE += (" Three in ten flow-shaped factories also contain rework loops (a machine feeding itself or a machine of an earlier layer through a "
+         "Buffer / Fleet edge with a strictly positive delay / transit time, so no zero-time cycle exists); machine oracles work per visit, not per item.")
 ASSUMPTIONS = ["items become visible at their first put; the source-side term uses the source's counters",
                "a discarded pallet keeps its packed items (they stay 'packed')"]
 
-PROFILE = {"conveyors": True, "conveyor_to_sink": True, "pack": 3}
+PROFILE = {"conveyors": True, "conveyor_to_sink": True, "pack": 3, "cycles": 3}
 
 
 def examples(tier):
-    return 3200 if tier == "quick" else 64000
+    return 6400 if tier == "quick" else 192000
 
 
 def _drainable(spec):
-    if spec.get("shape") != "flow":
+    if spec.get("shape") != "flow" or spec.get("cyclic"):
         return False
     n_in = {}
     for e in spec["edges"]:
@@ -185,6 +187,13 @@ class ConservationOracle(FOracle):
                                                                     st_["num_item_discarded"], inwork, self.sp_last.get(nid, 0), f.env.now))
                         return
                     continue
+                if ns["type"] == "Machine" and h - st_["num_item_discarded"] > node.work_capacity:
+                    # every item "in the node" occupies one of its work_capacity places: more than that means an item
+                    # the node took is in no place at all (neither pushed, nor counted as discarded, nor in work)
+                    self.v(("equation", "Machine", "in_no_place"),
+                           "Machine %s: pulled-pushed=%d, discarded=%d: %d items would be inside, work_capacity is %d (t=%s)" % (
+                               nid, h, st_["num_item_discarded"], h - st_["num_item_discarded"], node.work_capacity, f.env.now))
+                    return
                 if h - st_["num_item_discarded"] < 0:
                     self.v(("equation", ns["type"]), "%s %s: pulled-pushed=%d but discarded=%d (t=%s)" % (
                         ns["type"], nid, h, st_["num_item_discarded"], f.env.now))
